@@ -28,6 +28,11 @@ def evaluator_with_funcs(m, modname):
     """evaluator whose globals also hold the module's own top-level functions (interpreted on demand)."""
     g = dict(PE.module_regexes(m, modname))
     ev = PE.Evaluator(g)
+    # logging is a side channel: messages are accepted and dropped
+    noop = lambda *a, **k: None
+    logger = PE.Obj({"warning": noop, "error": noop, "info": noop, "debug": noop, "critical": noop, "log": noop})
+    ev.g.setdefault("__name__", modname)
+    ev.g.setdefault("logging", PE.Obj({"getLogger": lambda *a, **k: logger, "warning": noop, "error": noop, "info": noop, "debug": noop}))
     path = m.modfile.get(modname)
     for (p_, q), f in m.funcs.items():
         if p_ == path and "." not in q and q not in ev.g:
